@@ -36,7 +36,7 @@ def cmd_of(a):
 
 
 def t1(ctx, exe, names, cap):
-    lines, scripts, expected_dev = [], [], set()
+    lines, scripts, expected_dev, mismatching = [], [], set(), set()
     rnd = random.Random(ctx.seed + 59)
     for name in names:
         edges, r = adtb.tlc_edges(ctx, MC, edge_cfg(name), 'edges_' + name)
@@ -60,8 +60,12 @@ def t1(ctx, exe, names, cap):
             for k in ('ret', 'fired', 'trap'):
                 if k in a and a[k] != last.get(k):
                     bad = True
+            drain = h['ev'][-1]
+            if drain.get('e') == 'Drain' and (drain['fired'] != [[x['f'], x['a']] for x in e['t']['tasks']] or drain['q'] != [] or drain['ret'] != -1):
+                bad = True
             if bad:
                 mism += 1
+                mismatching.add(len(lines))
                 if len(ctx.drift) < 5:
                     ctx.drift.append('edge replay (%s) %s: spec q=%s %s, impl %s' % (name, ' '.join(s), e['t']['q'], json.dumps(a), json.dumps(last)))
             if a.get('dev'):
@@ -69,7 +73,7 @@ def t1(ctx, exe, names, cap):
             lines.append(h)
             scripts.append(s)
         ctx.add('edge_mismatches', mism)
-    return lines, scripts, expected_dev
+    return lines, scripts, expected_dev, mismatching
 
 
 def gen_history(rnd, nops, style):
@@ -129,11 +133,23 @@ def run(ctx):
     ctx.log('driver built')
     # 1+2. design step (invariants, laws, I => P except the named deviation) and T1 edge dump in one TLC run per configuration
     names = ['order', 'cancel'] + (['order2', 'cancel2'] if ctx.thorough else [])
-    lines, scripts, expected_dev = t1(ctx, exe, names, None if not ctx.thorough else 120000)
+    lines, scripts, expected_dev, mismatching = t1(ctx, exe, names, None if not ctx.thorough else 120000)
+    # An edge replay whose outcome equals TLC's target state and return values is a behaviour of the I-layer, and TLC has
+    # just checked that I-steps are P-steps except the named deviation.  TLC trace validation therefore gets: every replay
+    # that differs from the spec's edge, every replay of a deviating edge, and a seeded sample of the others.
+    rnd1 = random.Random(ctx.seed + 5959)
+    rest = [i for i in range(len(lines)) if i not in mismatching and i not in expected_dev]
+    rnd1.shuffle(rest)
+    keep = sorted(set(list(mismatching)[:3000]) | expected_dev | set(rest[:20000 if ctx.thorough else 2000]))
+    ctx.cov['edge_replays_validated_by_trace_spec'] = len(keep)
+    remap = {old: new for new, old in enumerate(keep)}
+    lines = [lines[i] for i in keep]
+    scripts = [scripts[i] for i in keep]
+    expected_dev = {remap[i] for i in expected_dev}
     n_t1 = len(lines)
     # 3. T2
     rnd = random.Random(ctx.seed * 7919 + 59)
-    nh, nops = (1500, 300) if ctx.thorough else (200, 200)
+    nh, nops = (1500, 300) if ctx.thorough else (150, 200)
     styles = ['mixed'] * 6 + ['ties'] * 3 + ['cancelall']
     t2s = [gen_history(rnd, nops, styles[i % len(styles)]) for i in range(nh)]
     hs = adtb.run_histories(ctx, exe, t2s)
